@@ -224,6 +224,39 @@ def many_dangling(run, sc):
             return
 
 
+def reduced_bases(run, sc):
+    """closed document sets over a base document that lacks reference types none of their references uses (HasProperty,
+    HasModellingRule): every end point is defined, so construction succeeds — also when the set defines enumeration data types
+    but no variable of such a type"""
+    base = minibase.base_xml()
+    doc = ('<?xml version="1.0" encoding="utf-8"?>\n<UANodeSet xmlns="http://opcfoundation.org/UA/2011/03/UANodeSet.xsd"><NamespaceUris><Uri>urn:reduced</Uri></NamespaceUris>'
+           '<Models><Model ModelUri="urn:reduced" Version="1" PublicationDate="2020-01-01T00:00:00Z"/></Models><Aliases/>'
+           '<UADataType NodeId="ns=1;i=3000" BrowseName="1:Colour"><DisplayName>Colour</DisplayName><References><Reference ReferenceType="i=45" IsForward="false">i=29</Reference></References></UADataType>'
+           '<UAObject NodeId="ns=1;i=5000" BrowseName="1:Plant"><DisplayName>Plant</DisplayName><References><Reference ReferenceType="i=40">i=58</Reference>'
+           '<Reference ReferenceType="i=35" IsForward="false">i=85</Reference></References></UAObject>'
+           '<UAVariable NodeId="ns=1;i=5001" BrowseName="1:Count" DataType="i=6"><DisplayName>Count</DisplayName><References><Reference ReferenceType="i=40">i=63</Reference>'
+           '<Reference ReferenceType="i=47" IsForward="false">ns=1;i=5000</Reference></References></UAVariable></UANodeSet>')
+    for name, ids in (("without HasProperty", [46]), ("without HasModellingRule", [37]), ("without both", [46, 37])):
+        b = base
+        usable = True
+        for i in ids:
+            line = [l for l in b.splitlines() if 'NodeId="i=%d"' % i in l]
+            alias = [a for a in ("HasProperty", "HasModellingRule") if 'ReferenceType="%s"' % a in b]
+            if len(line) != 1 or 'ReferenceType="i=%d"' % i in b or ">i=%d<" % i in b.replace(line[0], "").replace("<Alias", "<_") or alias:
+                usable = False
+                break
+            b = b.replace(line[0] + "\n", "", 1)
+        if not usable:
+            continue
+        files = {"Opc.Ua.NodeSet2.xml": b, "reduced.xml": doc}
+        case = {"files": files, "without_base": True}
+        run.case({"reduced_base": name}, tag="closure:reduced-base")
+        res = build(files, sc, "red_" + "_".join(str(i) for i in ids), with_base=False)
+        if "graph" not in res:
+            run.violation(case, {"what": "a closed document set over a base document %s does not build" % name, "impl": res, "call": "UAGraph.from_path / from_file_list"})
+            return
+
+
 LOOKUP_CALLS = [0]
 
 
@@ -330,6 +363,9 @@ def explore(run):
         if run.full():
             return
         many_dangling(run, sc)
+        if run.full():
+            return
+        reduced_bases(run, sc)
         if run.full():
             return
         for _ in range(20 if thorough else 2):
